@@ -130,6 +130,48 @@ theorem tie_validateConds : validateConds =
 theorem tie_tokenV2 : tokenV2Text = "{ return \"v2/\" + aca.UUID + \"/\" + aca.APIToken }" := by
   decide
 
+/-- the two assignments that can index out of range: `uuid = sp[1]`, `token = sp[2]` after
+`strings.Split(token, "/")` under the `v2/` prefix test (`legacyToken`, `C19_legacy_panic`) -/
+theorem tie_validateAssigns : validateAssigns =
+    ["sp := strings.Split(token, \"/\")", "uuid = sp[1]", "token = sp[2]"] := by decide
+
+/-! ### forwarding layers: remoteClusterRequest and proxy.Do (`remoteClusterRequest`, `proxyDo`) -/
+
+/-- the hop-by-hop headers `proxy.Do` drops are the model's `dropHeaders` -/
+theorem tie_dropHeaders : dropHeaderNames.map String.toList = dropHeaders := by decide
+
+/-- unknown remote ⇒ 404 before anything else; the outgoing URL takes Path, RawPath and RawQuery
+from the REBUILT request (`saltedReq`), not from the incoming one; the rebuilt request is what
+`proxy.Do` gets -/
+theorem tie_remoteClusterRequest : remoteClusterRequestText =
+    "{ remote, ok := h.Cluster.RemoteClusters[remoteID] if !ok { return nil, HTTPError{fmt.Sprintf(\"no proxy available for cluster %v\", remoteID), http.StatusNotFound} } scheme := remote.Scheme if scheme == \"\" { scheme = \"https\" } saltedReq, err := h.saltAuthToken(req, remoteID) if err != nil { return nil, err } urlOut := &url.URL{ Scheme: scheme, Host: remote.Host, Path: saltedReq.URL.Path, RawPath: saltedReq.URL.RawPath, RawQuery: saltedReq.URL.RawQuery, } client := h.secureClient if remote.Insecure { client = h.insecureClient } return h.proxy.Do(saltedReq, urlOut, client) }" := rfl
+
+/-- `proxy.Do`: header copy minus `dropHeaders`, X-Forwarded-For / X-Forwarded-Proto / Via, and a
+new request made of Method, the given URL, Host, these headers and the Body of the rebuilt request —
+nothing else of the incoming request is consulted -/
+theorem tie_proxyDo : proxyDoText =
+    "{ hdrOut := http.Header{} for k, v := range reqIn.Header { if !dropHeaders[k] { hdrOut[k] = v } } xff := reqIn.RemoteAddr if xffIn := reqIn.Header.Get(\"X-Forwarded-For\"); xffIn != \"\" { xff = xffIn + \",\" + xff } hdrOut.Set(\"X-Forwarded-For\", xff) if hdrOut.Get(\"X-Forwarded-Proto\") == \"\" { hdrOut.Set(\"X-Forwarded-Proto\", reqIn.URL.Scheme) } hdrOut.Add(\"Via\", reqIn.Proto+\" arvados-controller\") reqOut := (&http.Request{ Method: reqIn.Method, URL: urlOut, Host: reqIn.Host, Header: hdrOut, Body: reqIn.Body, }).WithContext(reqIn.Context()) return client.Do(reqOut) }" := rfl
+
+/-! ### rpc.Conn token placement (`rpcAuthorization`, `rpcReaderTokens`) -/
+
+/-- the only statements of `requestAndDecode` that touch the token list: first token ⇒
+`Authorization: Bearer`, none ⇒ `Bearer -`, the rest ⇒ `reader_tokens` -/
+theorem tie_rpcTokenAssigns : rpcTokenAssigns =
+    ["tokens, err := conn.tokenProvider(ctx)",
+     "ctx = arvados.ContextWithAuthorization(ctx, \"Bearer \"+tokens[0])",
+     "ctx = arvados.ContextWithAuthorization(ctx, \"Bearer -\")",
+     "params[\"reader_tokens\"] = tokens[1:]"] := by decide
+
+theorem tie_rpcConds : rpcConds =
+    ["if err != nil", "if len(tokens) > 0", "if err != nil", "if err != nil",
+     "if ok && ep.AttrsKey != \"\"", "if ok", "if err == nil && limit < 0", "if ok", "if ok2",
+     "if strings.HasSuffix(k, \"_at\")",
+     "if ok3 && (strings.HasPrefix(v, \"0001-01-01T00:00:00\") || v == \"\")",
+     "if len(tokens) > 1", "if strings.Contains(ep.Path, \"/{uuid}\")"] := by decide
+
+theorem tie_rpcStrings : (rpcStrings.getD 0 "").toList = sBearer ∧
+    (rpcStrings.getD 1 "").toList = sBearer ++ ['-'] ∧ rpcStrings.getD 13 "" = "reader_tokens" := by decide
+
 /-! ### saltedTokenProvider (lib/controller/federation/conn.go) -/
 
 theorem tie_providerConds : providerConds =
